@@ -17,10 +17,11 @@ class V:
 class SV(V):
     """A symbolic Python value: a z3 term of sort Val, with sound Python-side hints."""
 
-    __slots__ = ('term', 'kind', 'cls', 'exact', 'tag')
+    __slots__ = ('term', 'kind', 'cls', 'exact', 'tag', 'origin')
 
     def __init__(self, term, kind=None, cls=None, exact=False, tag=None):
         self.tag = tag
+        self.origin = None  # (receiver value, attribute name) when the value was read as `receiver.name` from the heap
         self.term = term
         self.kind = kind  # None | 'none' | 'bool' | 'int' | 'str' | 'ref'
         self.cls = cls  # ClassInfo upper bound of the dynamic class (for refs), or None
